@@ -61,6 +61,11 @@ SHAPES = [
     ("tuple-build-unpack", "a: int, b: int", "int", ["t = (a, b)", "x, y = t", "return x - y"]),
     ("tuple-index", "a: int, b: int", "int", ["t = (a, b, 7)", "return t[1] - t[0] + t[2]"]),
     ("tuple-return", "a: int, b: int", "tuple[int, int]", ["return (b, a)"]),
+    ("tuple1-return", "a: int, b: int", "tuple[int]", ["return (a - b,)"]),
+    ("tuple1-build-unpack", "a: int, b: int", "int", ["t = (a,)", "x, = t", "return x - b"]),
+    ("tuple3-return", "a: int, b: int", "tuple[int, int, int]", ["return (b, a, a - b)"]),
+    ("nested-tuple-return", "a: int, b: int", "tuple[tuple[int, int], int]", ["return ((b, a), a - b)"]),
+    ("none-return", "a: int, b: int", "None", ["x = a + b"]),
     ("nested-tuple", "a: int, b: int", "int", ["t = ((a, b), a)", "(x, y), z = t", "return x * 100 + y * 10 + z"]),
     ("struct-build-field", "a: int, b: int", "int", ["p = P(a, b)", "return p.x - p.y"]),
     ("struct-return-field", "a: int, b: int", "int", ["p = P(b, a)", "q = P(p.y, p.x)", "return q.x * 3 + q.y"]),
@@ -183,6 +188,13 @@ def cases(tier):
             for lit in LITS:
                 out.append((f"binop[{op}]:{ta}:traced-const[{lit}]", f"a: {ta}", RET_TYPES, [f"return a {op} {lit}"], (ta,), tier))
                 out.append((f"binop[{op}]:{ta}:const[{lit}]-traced", f"a: {ta}", RET_TYPES, [f"return {lit} {op} a"], (ta,), tier))
+    # TWO Python constants in one function: equal-but-distinguishable values (0.0 / -0.0, 1 / 1.0 / True, 0 / False)
+    # must stay distinct constants, in both orders, as operands and as a division check of the sign of zero
+    consts = ["0.0", "-0.0", "1", "1.0", "True", "0", "False", "2", "2.0"]
+    for c1, c2 in itertools.permutations(consts, 2):
+        for ta in ("float", "int"):
+            out.append((f"two-consts[{c1},{c2}]:{ta}:mul", f"a: {ta}", RET_TYPES, [f"return (a + {c1}) * {c2}"], (ta,), tier))
+            out.append((f"two-consts[{c1},{c2}]:{ta}:seq", f"a: {ta}", RET_TYPES, [f"u = a * {c1}", f"v = a * {c2}", "return u - v * 3"], (ta,), tier))
     for op in ("-", "+", "~"):
         for ta in TYPES:
             out.append((f"unary[{op}]:{ta}", f"a: {ta}", RET_TYPES, [f"return {op}a"], (ta,), tier))
